@@ -457,6 +457,12 @@ impl JobServer {
 
                     for fd in rfds.fds(None) {
                         if fd == self.params.token_fds.0 {
+                            if state.my_tokens >= 1 {
+                                // A child that exited during this same wake-up already
+                                // gave us a token: taking a second one would leave us
+                                // holding two when the next job starts.
+                                continue;
+                            }
                             let mut b: [u8; 1] = [0];
                             #[cfg(feature = "verif-hooks")]
                             crate::verif::point("tok-read", "");
